@@ -60,7 +60,9 @@ def inverse_root_oracle(A64, eps, r):
     """float64 eigendecomposition oracle for (A + eps I)^(-1/r), negative eigenvalues of A clamped like the
     documented eigen path (shift by -min(lambda_min,0))."""
     ev, Q = torch.linalg.eigh((A64 + A64.T) / 2)
-    ev = ev - torch.clamp(ev.min(), max=0.0)
+    shift = -float(torch.clamp(ev.min(), max=0.0))
+    ev = ev + shift
+    inverse_root_oracle.last_shift = shift
     return (Q * ((ev + eps) ** (-1.0 / float(r)))) @ Q.T, ev
 
 
